@@ -154,7 +154,13 @@ Proof.
     unfold sync_remove in H1. destruct (sync s k); [|discriminate]. injection H1 as <- _. auto.
   - apply bind_ok in H as ([s1 st] & H1 & H). injection H as <- _.
     unfold release_self in H1. destruct (sync s k) as [st0|]; [|discriminate].
-    destruct (ss_twice st0); injection H1 as <- _; auto.
+    destruct (ss_twice st0); [|injection H1 as <- _; auto].
+    destruct (ss_waiting st0); [|injection H1 as <- _; auto].
+    apply bind_ok in H1 as (g1 & Hg & H1). injection H1 as <- _. cbn [dg set_dg set_sync] in *.
+    unfold repoint_transferred_dependents in Hg. apply bind_ok in Hg as (o & _ & Hg).
+    destruct o as [t0|]; [|injection Hg as <-; auto].
+    apply update_transferred_edges_inv in Hg as [HE1 [ST _]]; auto.
+    split; auto. eapply same_T_tinv; eauto.
   - injection H as <- _. unfold mark_as_transfer_target. destruct (sync s k); auto.
   - apply bind_ok in H as ([s1 b] & H1 & H). injection H as <- _.
     unfold transfer in H1. destruct (sync s k) as [st|]; [|discriminate].
@@ -417,7 +423,14 @@ Proof.
     unfold sync_remove in H1. destruct (sync s k); [|discriminate]. injection H1 as <- _. auto.
   - apply bind_ok in H as ([s1 st] & H1 & H). injection H as <- _.
     unfold release_self in H1. destruct (sync s k) as [st0|]; [|discriminate].
-    destruct (ss_twice st0); injection H1 as <- _; auto.
+    destruct (ss_twice st0); [|injection H1 as <- _; auto].
+    destruct (ss_waiting st0); [|injection H1 as <- _; auto].
+    apply bind_ok in H1 as (g1 & Hg & H1). injection H1 as <- _. cbn [dg set_dg set_sync] in *.
+    unfold repoint_transferred_dependents in Hg. apply bind_ok in Hg as (o & _ & Hg).
+    destruct o as [t0|]; [|injection Hg as <-; auto].
+    apply update_transferred_edges_rw in Hg. apply (rw_rel_wkW Completed) in Hg.
+    exists []. destruct Hg as (N & L & A & B). split; auto. split; auto.
+    intros t'. destruct (B t') as [K Wr]; auto. apply ts_same; auto.
   - injection H as <- _. apply Same. unfold mark_as_transfer_target.
     destruct (sync s k); reflexivity.
   - apply bind_ok in H as ([s1 b] & H1 & H). injection H as <- <-.
